@@ -7,6 +7,7 @@ from claims import CLAIMS, NOT_APPLICABLE, HOOK_COMMITS
 
 VERIF = os.path.dirname(os.path.dirname(os.path.abspath(__file__)))
 checks = []
+CLAIMS = {k: v for k, v in CLAIMS.items() if not v.get('pending')}
 for pid in sorted(CLAIMS):
     c = CLAIMS[pid]
     assert pid in PROPS, pid
